@@ -226,6 +226,7 @@ func sameWorld(before, after []*FileInfo) *Violation {
 }
 
 var searchOpts = HistOpts{MaxSteps: 10, MaxRows: 6, Merge: true, Restart: true, Ext: true, FS: true}
+var minMaxOpts = HistOpts{MaxSteps: 20, MaxRows: 3, Merge: true, MinMaxHeavy: true}
 var mergeHeavyOpts = HistOpts{MaxSteps: 12, MaxRows: 4, Merge: true, Restart: true, Ext: true, FS: true, MergeHeavy: true}
 
 func runSearchProperty(judge func(*SearchRun) *Violation) func(SearchCase) *Violation {
@@ -241,7 +242,7 @@ func runSearchProperty(judge func(*SearchRun) *Violation) func(SearchCase) *Viol
 }
 
 func TestC01(t *testing.T) {
-	Ev.Rule = "case = generated history (ingest/flush/auto-flush by limits/restart with another config/merge/external-writer file; mem or filesystem stores; conforming MetaStore variants) + up to 10 queries (bloom tree, regex tree, prefilter tree drawn from hit / near-miss / absent entries of the stored rows, nil/empty/unknown nodes). Oracle: independent JSON walker + tokenizer + tree evaluation + exact-arithmetic row-level prefilter. Non-trivial: the query has >=1 stored row that must match and >=1 decidable stored row that does not, over >=2 blocks; distinct by hash(query, must-match id set, layout shape)."
+	Ev.Rule = "case = generated history (ingest/flush/auto-flush by limits/restart with another config/merge/external-writer file; mem or filesystem stores; conforming MetaStore variants) + up to 10 queries (bloom tree, regex tree, prefilter tree drawn from hit / near-miss / absent entries of the stored rows, nil/empty/unknown nodes); minmax phase: both numeric pool fields indexed, 3-8 single-flush files of 1-3 rows over one or two partitions with small/fractional/extreme numbers, merged into blocks whose range is the hull of several source ranges, prefilter-only queries with operands next to the stored values). Oracle: independent JSON walker + tokenizer + tree evaluation + exact-arithmetic row-level prefilter. Non-trivial: the query has >=1 stored row that must match and >=1 decidable stored row that does not, over >=2 blocks; distinct by hash(query, must-match id set, layout shape)."
 	Ev.Assumptions = []string{
 		"rows whose semantics the documentation does not decide (top-level \"\" key, invalid UTF-8 / surrogate escapes inside raw JSON) impose no obligation",
 		"tokenizer is fixed within a history (restarts change every other setting)",
@@ -249,6 +250,7 @@ func TestC01(t *testing.T) {
 	}
 	runChecks(t, "search", 250, 8000, genSearchCase(searchOpts, 10, true), runSearchProperty(judgeC01))
 	runChecks(t, "merged", 150, 5000, genSearchCase(mergeHeavyOpts, 10, true), runSearchProperty(judgeC01))
+	runChecks(t, "minmax", 120, 4000, genSearchCase(minMaxOpts, 8, true), runSearchProperty(judgeC01))
 	bigFilterPhase(t, judgeC01)
 	fmt.Print()
 }
@@ -258,4 +260,5 @@ func TestC02(t *testing.T) {
 	Ev.Assumptions = []string{"same undecidable-row exemption as C01", "block membership is read with the library's public read helpers"}
 	runChecks(t, "search", 250, 8000, genSearchCase(searchOpts, 10, true), runSearchProperty(judgeC02))
 	runChecks(t, "merged", 150, 5000, genSearchCase(mergeHeavyOpts, 10, true), runSearchProperty(judgeC02))
+	runChecks(t, "minmax", 120, 4000, genSearchCase(minMaxOpts, 8, true), runSearchProperty(judgeC02))
 }
